@@ -486,6 +486,7 @@ fn explore(args: &[String]) -> i32 {
     let cost = has_flag(args, "--cost");
     let max_states: usize = arg_value(args, "--max-states").map(|s| s.parse().unwrap()).unwrap_or(usize::MAX);
     let max_secs: u64 = arg_value(args, "--max-secs").map(|s| s.parse().unwrap()).unwrap_or(u64::MAX);
+    let max_crashes: usize = arg_value(args, "--max-crashes").map(|s| s.parse().unwrap()).unwrap_or(usize::MAX);
     let run_dir = arg_value(args, "--run-dir").unwrap_or_else(|| format!("/verif/tmp/run-{}", std::process::id()));
     std::fs::create_dir_all(&run_dir).expect("cannot create run dir");
     let exe = std::env::current_exe().unwrap().to_string_lossy().to_string();
@@ -524,6 +525,11 @@ fn explore(args: &[String]) -> i32 {
             cap_reason = format!("depth cap {} reached with {} unexpanded states", cfg.max_depth, frontier.len());
             break;
         }
+        if crashes >= max_crashes {
+            capped = true;
+            cap_reason = format!("stopped after {crashes} worker crashes (each one is reported as a violation) at depth {depth} with {} unexpanded states", frontier.len());
+            break;
+        }
         if states >= max_states || t0.elapsed().as_secs() >= max_secs {
             capped = true;
             cap_reason = format!("state/time cap reached at depth {depth} with {} unexpanded states", frontier.len());
@@ -534,6 +540,8 @@ fn explore(args: &[String]) -> i32 {
         let results: Mutex<Vec<Trans>> = Mutex::new(Vec::new());
         let mach: Mutex<Vec<String>> = Mutex::new(Vec::new());
         let crash_count = AtomicUsize::new(0);
+        let skipped_owner = AtomicUsize::new(0);
+        let crashes_before = crashes;
         std::thread::scope(|scope| {
             for wi in 0..nworkers.min(frontier.len().max(1)) {
                 let frontier = &frontier;
@@ -546,6 +554,7 @@ fn explore(args: &[String]) -> i32 {
                 let cfg_spec = &cfg_spec;
                 let run_dir = &run_dir;
                 let crash_count = &crash_count;
+                let skipped = &skipped_owner;
                 let expected_aborts = &expected_aborts_owner;
                 let symbolizer = &symbolizer_owner;
                 scope.spawn(move || {
@@ -555,6 +564,11 @@ fn explore(args: &[String]) -> i32 {
                         let si = next_idx.fetch_add(1, Ordering::Relaxed);
                         if si >= frontier.len() {
                             break;
+                        }
+                        if crashes_before + crash_count.load(Ordering::Relaxed) >= max_crashes || t0.elapsed().as_secs() >= max_secs {
+                            // budget exhausted: leave the rest of this level unexpanded
+                            skipped.fetch_add(1, Ordering::Relaxed);
+                            continue;
                         }
                         let hist_s = history_to_string(&frontier[si]);
                         let mut skip = 0usize;
@@ -713,6 +727,11 @@ fn explore(args: &[String]) -> i32 {
         });
         machinery.append(&mut mach.into_inner().unwrap());
         crashes += crash_count.load(Ordering::Relaxed);
+        let skipped_states = skipped_owner.load(Ordering::Relaxed);
+        if skipped_states > 0 {
+            capped = true;
+            cap_reason = format!("crash or time budget exhausted inside BFS level {depth}: {skipped_states} states of that level were not expanded ({crashes} worker crashes, {:.0}s)", t0.elapsed().as_secs_f64());
+        }
         let mut res = results.into_inner().unwrap();
         res.sort_by_key(|t| (t.state, t.op_idx));
         let mut next: Vec<Vec<Op>> = Vec::new();
@@ -780,6 +799,9 @@ fn explore(args: &[String]) -> i32 {
         }
         frontier = next;
         depth += 1;
+        if skipped_states > 0 {
+            frontier.clear();
+        }
         eprintln!(
             "[mc] depth {depth}: states {states} transitions {transitions} frontier {} violations {} crashes {crashes} ({:.1}s)",
             frontier.len(),
